@@ -487,7 +487,9 @@ var c12Prefixes = []string{"2001:db8:1::/64", "2001:db8:2::/64", "2001:db8:1::/4
 var c12PrefixesLarge = append(append([]string(nil), c12Prefixes...), "2001:db8::/32", "2001:db8::/48", "2001:db8::/56", "2001:db8::/64", "2001:db8:1::/56",
 	"2001:db8:2::/48", "2001:db8:3::/64", "fd00::/8", "fd00::/48", "fd00:0:0:1::/64", "2a00:1::/32", "2a00:1::/64")
 var c12Servers = [][]string{{"2001:db8::53"}, {"2001:db8::53", "2001:db8::54"}, {"2001:db8::54", "2001:db8::53"}, {"fd00::53"}}
-var c12Domains = [][]string{{"lan"}, {"lan", "example.com"}, {"example.com", "lan"}, {"corp.example.net"}}
+// (the last three differ from earlier ones in letter case only: on the wire those are different contents)
+var c12Domains = [][]string{{"lan"}, {"lan", "example.com"}, {"example.com", "lan"}, {"corp.example.net"},
+	{"LAN"}, {"lan", "Example.com"}, {"corp.example.NET"}}
 
 func c12GenOpt(t *rapid.T, kind string, pool []string) vOpt {
 	life := rapid.SampledFrom([]int64{0, 600, 1800, 86400, 1, 599, 601, 65535, 4294967294, 4294967295}).Draw(t, kind+"-life")
@@ -505,7 +507,7 @@ func c12GenOpt(t *rapid.T, kind string, pool []string) vOpt {
 	case "mtu":
 		return vOpt{Kind: kind, MTU: rapid.SampledFrom([]uint32{1280, 1500, 9000, 1280, 1500, 1, 1499, 1501, 65535, 65536, 4294967295}).Draw(t, "mtu")}
 	case "cp":
-		return vOpt{Kind: kind, URI: rapid.SampledFrom([]string{"https://a.example/", "https://b.example/", "urn:ietf:params:capport:unrestricted"}).Draw(t, "uri")}
+		return vOpt{Kind: kind, URI: rapid.SampledFrom([]string{"https://a.example/", "https://b.example/", "urn:ietf:params:capport:unrestricted", "https://A.example/"}).Draw(t, "uri")}
 	case "lla":
 		return vOpt{Kind: kind, MTU: uint32(rapid.IntRange(1, 3).Draw(t, "mac"))}
 	case "pref64":
